@@ -18,10 +18,10 @@ from harness import gallina as G
 ID = "C24"
 COQ_DIRS = ["C24"]
 PROPERTY_FILE = "C24/Property.v"
-RUN_IMPORTS = "From TV Require Import C24.Model C24.Run."
-RUN_FN = "run_case"
-CHECK_FN = "check_case"
-INPUT_TYPE = "(option str * req)"
+RUN_IMPORTS = "From TV Require Import C24.Model C24.Run C24.Args."
+RUN_FN = "run_case2"
+CHECK_FN = "check_case2"
+INPUT_TYPE = "case2"
 
 DEFAULT_SUP = ["GET", "HEAD", "POST", "DELETE", "PATCH", "PUT", "OPTIONS"]      # RequestHandler.SUPPORTED_METHODS
 SAFE = ("GET", "HEAD", "OPTIONS")
@@ -157,12 +157,27 @@ def _q(v):
 
 
 def _uri_body(case):
+    if case.get("args") is not None:                 # raw query string and raw urlencoded body (latin-1 text of the bytes)
+        q, b = case["args"]
+        return "/?" + q, b.encode("latin-1")
     qs = "&".join("_xsrf=" + _q(v) for c, v in case["fields"] if c == "q")
     body = "&".join("_xsrf=" + _q(v) for c, v in case["fields"] if c == "b")
     return ("/?" + qs if qs else "/"), body.encode("ascii")
 
 
+def ref_arg_values(case):
+    """the _xsrf values of a raw query/body as bytes, by the standard library's urlencoded parser (query first)"""
+    out = []
+    for part in case["args"]:
+        for k, v in urllib.parse.parse_qsl(part, keep_blank_values=True, encoding="latin-1", errors="strict"):
+            if k == "_xsrf":
+                out.append(v.encode("latin-1"))
+    return out
+
+
 def model_fields(case):
+    if case.get("args") is not None:
+        return [v.decode("utf-8") for v in ref_arg_values(case)]     # raises for invalid utf-8: callers test args_bad first
     return [v for c, v in case["fields"] if c == "q"] + [v for c, v in case["fields"] if c == "b"]
 
 
@@ -250,6 +265,8 @@ _TOKEN = re.compile(r"[!#$%&'*+\-.^_`|~0-9A-Za-z]+")
 def wire_safe(case):
     if case.get("chdr") is not None and not (header_ok(case["chdr"]) and len(case["chdr"]) < 6000):
         return False
+    if case.get("args") is not None and not re.fullmatch(r"[\x21-\x7e\x80-\xff]*", case["args"][0]):
+        return False
     return (bool(_TOKEN.fullmatch(case["m"])) and cookie_wire_safe(case["cookie"]) and header_ok(case["hx"]) and header_ok(case["hc"])
             and sum(len(v) for _, v in case["fields"]) < 3000 and len(case["cookie"] or "") < 6000)
 
@@ -324,12 +341,15 @@ def _gopt(s):
 
 
 def coq_input(case):
-    return "(%s, mkreq %s %s %s %s %s %s %s %s %s %s %s)" % (
-        _gopt(case.get("chdr")),
+    a = case.get("args")
+    args = "None" if a is None else "(Some (%s, %s))" % (G.gbytes(a[0].encode("latin-1")), G.gbytes(a[1].encode("latin-1")))
+    flds = [] if a is not None else model_fields(case)
+    return "(%s, (%s, mkreq %s %s %s %s %s %s %s %s %s %s %s))" % (
+        args, _gopt(case.get("chdr")),
         G.gbool(case["on"]), _gstr(case["m"]),
         "default_supported" if case.get("sup") is None else G.glist([_gstr(m) for m in case["sup"]], "str"),
         G.gn(case["ov"]), _gopt(case["cookie"]),
-        G.glist([_gstr(v) for v in model_fields(case)], "str"), _gopt(case["hx"]), _gopt(case["hc"]),
+        G.glist([_gstr(v) for v in flds], "str"), _gopt(case["hx"]), _gopt(case["hc"]),
         G.gbytes(case["rnd"].encode("latin-1")), G.gbytes(case["mask"].encode("latin-1")), G.gz(case["now"]))
 
 
@@ -381,8 +401,19 @@ def ref_issue(ver, mask, secret, ts):
 _CTRL = re.compile(r"[\x00-\x08\x0e-\x1f]")
 
 
+def args_bad(case):
+    if case.get("args") is None:
+        return False
+    try:
+        for v in ref_arg_values(case):
+            v.decode("utf-8")
+    except UnicodeDecodeError:
+        return True
+    return False
+
+
 def ref_input_token(case):
-    vals = model_fields(case)
+    vals = [] if args_bad(case) else model_fields(case)
     f = _CTRL.sub(" ", vals[-1]).strip() if vals else None
     return f or case["hx"] or case["hc"]
 
@@ -426,6 +457,8 @@ def py_check(case, o):
         return status == 405 and ran is False and token is None and sc is None
     expected, fresh = ref_expected_secret(case)
     gate = case["on"] and case["m"] not in SAFE
+    if gate and args_bad(case):                           # an _xsrf argument that is not utf-8: 400 from get_argument
+        return status == 400 and ran is False and token is None and sc is None
     t = ref_input_token(case)
     carried = ref_secret(t) if t else None
     should_run = (not gate) or (bool(carried) and carried == expected)
@@ -456,7 +489,7 @@ DEF_MASK = b"\x11\x22\x33\x44"
 DEF_NOW = 1700000000
 
 
-def mk(m="POST", cookie=None, fields=(), hx=None, hc=None, on=True, ov=2, rnd=DEF_RND, mask=DEF_MASK, now=DEF_NOW, sup=None, chdr=None):
+def mk(m="POST", cookie=None, fields=(), hx=None, hc=None, on=True, ov=2, rnd=DEF_RND, mask=DEF_MASK, now=DEF_NOW, sup=None, chdr=None, args=None):
     if chdr is not None:
         assert cookie is None and header_ok(chdr), chdr
     fields = [[c, v] for c, v in fields]
@@ -465,7 +498,9 @@ def mk(m="POST", cookie=None, fields=(), hx=None, hc=None, on=True, ov=2, rnd=DE
         fields, hx = fields + [["b", hx]], None
     if not header_ok(hc):
         fields, hc = fields + [["b", hc]], None
-    return {"on": bool(on), "m": m, "sup": sup, "ov": ov, "chdr": chdr, "cookie": cookie, "fields": fields, "hx": hx, "hc": hc,
+    if args is not None:
+        assert not fields
+    return {"on": bool(on), "m": m, "sup": sup, "ov": ov, "args": args, "chdr": chdr, "cookie": cookie, "fields": fields, "hx": hx, "hc": hc,
             "rnd": bytes(rnd).decode("latin-1"), "mask": bytes(mask).decode("latin-1"), "now": now}
 
 
@@ -786,6 +821,67 @@ def cookie_header_scope(alpha, maxlen, post_maxlen):
     return out
 
 
+def pct(rng, s, p_enc=0.4):
+    """a legal urlencoded spelling of the text s (utf-8): each byte literal (if unreserved), %XX in either case, space as +"""
+    out = []
+    for b in s.encode("utf-8"):
+        ch = chr(b)
+        r = rng.random()
+        if b == 32 and r < 0.5:
+            out.append("+")
+        elif (ch.isalnum() and b < 128 or ch in "-._~|") and r >= p_enc:
+            out.append(ch)
+        else:
+            out.append(("%%%02X" if rng.random() < 0.5 else "%%%02x") % b)
+    return "".join(out)
+
+
+def args_cases(rng, n_random):
+    """the token travels in a raw query string / urlencoded body: percent and plus decoding, repeated fields, query-then-body
+    order, blank values, odd escapes, names spelled with escapes, invalid utf-8 (400), then the header fallbacks"""
+    out = []
+    sec = rbytes(rng, 16)
+    ck = ref_issue(2, rbytes(rng, 4), sec, 1500000000)
+    bad = ref_issue(2, rbytes(rng, 4), rbytes(rng, 16), 1500000000)
+
+    def good():
+        return ref_issue(rng.choice([1, 2]), rbytes(rng, 4), sec, 9)
+
+    def f(name="_xsrf", v=None):
+        return pct(rng, name, rng.choice([0, 0, 0.5])) + "=" + pct(rng, good() if v is None else v, rng.choice([0, 0.3, 1]))
+
+    forms = []
+    for _ in range(3):
+        forms += [(f(), ""), ("", f()), (f(v=bad), f()), (f(), f(v=bad)), (f(v=bad) + "&" + f(), ""), (f() + "&" + f(v=bad), ""),
+                  ("", f(v=bad) + "&" + f()), ("a=1&" + f() + "&b=2", ""), ("", "a=1&&" + f() + "&"), (f() + "&_xsrf", ""), (f() + "&_xsrf=", ""),
+                  ("_xsrf&" + f(), ""), (f(), "_xsrf="), (f(), "_xsrf=+%20+"), ("_xsrf=%01" + pct(rng, good()) + "%1f+", ""), ("_XSRF=" + good(), ""),
+                  ("_xsrf%3D" + good(), ""), ("_xsrf=" + good() + "%", ""), ("_xsrf=" + good() + "%4", ""), ("_xsrf=" + good() + "%zz", ""),
+                  ("_xsrf=%ff", f()), (f(), "_xsrf=%c3"), ("_xsrf=%C3%A9" + good(), ""), ("_xsrf=" + good() + ";x=1", ""), ("_xsrf==" + good(), ""),
+                  ("+_xsrf=" + good(), ""), ("_xsrf=" + good().replace("|", "%7c"), ""), ("_xsrf=" + good().replace("|", "%7C"), ""),
+                  ("x=%26_xsrf=" + bad + "&" + f(), ""), ("_xsrf=%2B" + good(), ""), ("_xsrf=+" + good() + "+", ""), ("?" + f(), ""), (f() + "#frag", "")]
+    for q, b in forms:
+        m = rng.choice(["POST", "PUT", "PATCH", "DELETE"])
+        out.append(mk(m=m, cookie=ck, args=[q, b]))
+        out.append(mk(m=m, cookie=ck, args=[q, b], hx=rng.choice([good(), bad]), hc=rng.choice([None, good()])))
+    out += [mk(m="GET", cookie=ck, args=["_xsrf=%ff", ""]), mk(cookie=ck, args=["_xsrf=%ff", ""], on=False),
+            mk(m="PROPFIND", cookie=ck, args=["_xsrf=%ff", ""]), mk(cookie=ck, args=["", ""], hx=good()), mk(cookie=ck, args=["", ""], hc=good()),
+            mk(cookie=ck, args=["_xsrf=", "_xsrf=+"], hx="", hc=good())]
+    alpha = ["_xsrf", "=", "&", "%", "+", "3", "1", "%33", "%c3", "%a9", "x", ";"]
+    for _ in range(n_random):
+        q = "".join(rng.choice(alpha) for _ in range(rng.randrange(0, 8)))
+        b = "".join(rng.choice(alpha) for _ in range(rng.randrange(0, 8))) if rng.random() < 0.5 else ""
+        out.append(mk(cookie="31", args=[q, b], hx=rng.choice([None, None, "31", "x"])))        # cookie secret b"1"; "31"/"1"/"%31" match
+    return out
+
+
+def args_scope(alpha, maxlen):
+    out = []
+    for n in range(maxlen + 1):
+        for t in itertools.product(alpha, repeat=n):
+            out.append(mk(cookie="31", args=["".join(t), ""]))
+    return out
+
+
 def near_miss_cases(rng):
     """token secrets that differ from the cookie's secret in one place only, every (cookie version, token version)"""
     out = []
@@ -825,10 +921,13 @@ def gen_cases(rng, tier):
     out += near_miss_cases(rng)
     out += method_cases(rng)
     out += cookie_header_cases(rng, 60 if tier == "quick" else 300)
+    out += args_cases(rng, 80 if tier == "quick" else 500)
+    if tier != "quick":
+        out += args_scope(["_xsrf", "=", "&", "%", "+", "3", "1"], 4)
     if tier != "quick":
         out += cookie_header_scope(["_xsrf", "=", ";", '"', "\\", "1", "\\061"], 4, 3)
     if tier == "quick":
-        out += structured(rng, 400)
+        out += structured(rng, 300)
         out += small_scope(["2", "|", "a"], 4)
         out += rng.sample(nd_cases(), 100)
         out += digit_limit_cases()[:4]
@@ -847,7 +946,7 @@ def nontrivial(case, o):
     gate = case["on"] and case["m"] not in SAFE
     if not gate and not case["cookie"] and not case.get("chdr"):
         return None
-    return (case["m"], repr(case.get("sup")), case["on"], case["ov"], case.get("chdr"), case["cookie"], repr(case["fields"]), case["hx"], case["hc"])
+    return (case["m"], repr(case.get("sup")), case["on"], case["ov"], repr(case.get("args")), case.get("chdr"), case["cookie"], repr(case["fields"]), case["hx"], case["hc"])
 
 
 def classify(case, o):
@@ -862,6 +961,7 @@ def classify(case, o):
     else:
         yield "odd-observable"
     yield "cookie_header=%s" % (case.get("chdr") is not None)
+    yield "raw_args=%s" % (case.get("args") is not None)
     c = cookie_of(case)
     yield "cookie=" + ("absent" if c is None else "empty" if c == "" else "v2" if c.startswith("2|") else "other")
     yield "cookie_decodes=%s" % (bool(c) and ref_secret(c) is not None)
@@ -897,6 +997,13 @@ def shrink(case):
     if c:
         for w in (c[: len(c) // 2], c[1:], c[:-1]):
             yield dict(case, cookie=w)
+    a = case.get("args")
+    if a is not None:
+        for i in (0, 1):
+            v = a[i]
+            for w in (v[: len(v) // 2], v[1:], v[:-1]):
+                if w != v:
+                    yield dict(case, args=[w, a[1]] if i == 0 else [a[0], w])
     c = case.get("chdr")
     if c:
         for w in (c[: len(c) // 2], c[1:], c[:-1], c[len(c) // 2:]):
